@@ -269,7 +269,12 @@ class Integer(base.SimpleAsn1Type):
             return str(self.namedValues[value])
 
         except KeyError:
-            return str(value)
+            try:
+                return str(value)
+
+            except ValueError:
+                # beyond the interpreter's int-to-str conversion limit
+                return hex(value)
 
     # backward compatibility
 
